@@ -1231,6 +1231,21 @@ def inject_inconsistency(rng, prog, cls):
     def insert_at(i, cs):
         return prog[:i] + list(cs) + prog[i:]
 
+    if cls == "no_sibling" and rng.random() < 0.2:
+        # the ROOT of the HUGR as the source of a wire (it has no parent, hence no sibling ancestor), once the root
+        # operation is complete: after the `set_outputs` of a top-level dataflow builder with at least one output
+        tops = []
+        for i, c in enumerate(prog):
+            if c[0] == "set_outputs" and c[1] in pr.env.b and c[2]:
+                bo = pr.builder(c[1])
+                if type(bo) is C["Dfg"] and bo.hugr.root == bo.parent_node and _spent_index(pr, c[1]) >= len(prog) - 1:
+                    tops.append((i, c[1]))
+        if tops:
+            i, b = rng.choice(tops)
+            j = i + 1
+            bad = [rng.choice(["add_op", "add"]), b, "nroot_inj", ["@noop", "@none"], [["out", ["root", b], 0]], None]
+            return result(insert_at(j, [bad]), j)
+
     if cls in ("no_sibling", "not_in_cfg"):
         cands = []
         for i, c in enumerate(prog):
